@@ -2,9 +2,8 @@ import Proofs.Lemmas.RoundTripScanNode
 /-!
 # Round trip, part 10: `parse_capture_groups` on the printed pattern
 
-From `scan_node`: the pre-scan of the printed pattern sets `group_count_max` to the number of groups of
-the AST and `named_group_indices` to the AST's named groups (`prescan_print`); the duplicate-name check
-passes when all names are different.
+The table `named_group_indices` that the pre-scan builds (`pushAll`) is the one the descent needs
+(`namedR_pushAll`).  `prescan_print` itself is in `RoundTripPaths5.lean`.
 -/
 namespace Regress.RoundTrip
 open Regress Regress.IR Regress.Parse Regress.Lower Regress.Print
@@ -128,76 +127,10 @@ theorem namedR_pushAll (P : ES.Node) : NamedR P (pushAll [] (ES.namedGroups P 0)
     · simp [h, mapGet]
     · simp [h, mapGet]
 
-/-! ## The duplicate-name check -/
-
-theorem mapPush_fresh {β} : ∀ (L : List (List Nat × List β)) (k : List Nat) (v : β), k ∉ L.map (·.1) →
-    mapPush L k v = L ++ [(k, [v])] := by
-  intro L
-  induction L with
-  | nil => intro k v _; rfl
-  | cons x xs ih =>
-    intro k v h
-    obtain ⟨k', vs⟩ := x
-    simp only [List.map_cons, List.mem_cons, not_or] at h
-    have : (k' == k) = false := by simpa using fun e => h.1 e.symm
-    simp only [mapPush, this, Bool.false_eq_true, if_false, List.cons_append]
-    rw [ih k v h.2]
-
-theorem pushLocs_fresh : ∀ (ns : List (List Nat)) (ps : List (List (Nat × Nat)))
-    (L : List (List Nat × List (List (Nat × Nat)))), ns.Nodup → (∀ k ∈ ns, k ∉ L.map (·.1)) →
-    pushLocs L ns ps = L ++ (ns.zip ps).map (fun p => (p.1, [p.2])) := by
-  intro ns
-  induction ns with
-  | nil => intro ps L _ _; simp [pushLocs]
-  | cons k ns ih =>
-    intro ps L hnd hk
-    cases ps with
-    | nil => simp [pushLocs]
-    | cons p ps =>
-      have hstep : pushLocs L (k :: ns) (p :: ps) = pushLocs (mapPush L k p) ns ps := rfl
-      rw [hstep, mapPush_fresh L k p (hk k (by simp))]
-      rw [ih ps _ (List.nodup_cons.1 hnd).2 ?_]
-      · simp
-      · intro k' hk'
-        simp only [List.map_append, List.map_cons, List.map_nil, List.mem_append, List.mem_cons,
-          List.not_mem_nil, or_false, not_or]
-        refine ⟨hk k' (by simp [hk']), ?_⟩
-        intro e
-        subst e
-        exact (List.nodup_cons.1 hnd).1 hk'
-
-theorem no_conflict {ns : List (List Nat)} (ps : List (List (Nat × Nat))) (h : ns.Nodup) :
-    (pushLocs [] ns ps).any (fun e => anyConflict e.2) = false := by
-  rw [pushLocs_fresh ns ps [] h (by simp)]
-  simp only [List.nil_append, List.any_map, List.any_eq_false]
-  intro p _
-  simp [anyConflict]
-
 /-! ## `parse_capture_groups` -/
 
 theorem scanLoop_nil (fl : Flags) {f : Nat} (hf : 0 < f) (sc : Scan) : scanLoop fl f [] sc = .ok sc := by
   obtain ⟨f', rfl⟩ : ∃ f', f = f' + 1 := ⟨f - 1, by omega⟩
   rw [scanLoop.eq_def]
-
-theorem prescan_print {fl : Flags} (hc : ClsScan fl) (hv : VClsScan fl) (a : ES.Node) (st : PState)
-    (hin : st.input = pr .disj a) (hfl : st.flags = fl) (h0 : st.groupCountMax = 0) (hn : st.named = [])
-    (hm : modeOK fl.unicodeSets a = true) (hl : lexOK a = true)
-    (hg : ES.countParens a ≤ Gen.MAX_CAPTURE_GROUPS)
-    (hnd : ((ES.namedGroups a 0).map (·.1)).Nodup) :
-    parseCaptureGroups st =
-      .ok { st with groupCountMax := ES.countParens a, named := pushAll [] (ES.namedGroups a 0) } := by
-  obtain ⟨sc, f', hf', hscan, hrel⟩ := scan_node hc hv a hm hl .disj
-    { named := st.named, gmax := st.groupCountMax } [] (st.input.length + 1) (by rw [hin]; simp)
-  simp only [List.append_nil] at hscan
-  rw [scanLoop_nil fl hf'] at hscan
-  obtain ⟨g1, n1, ps, l1, e1⟩ := hrel (by simp only [h0]; omega)
-  simp only [h0, hn, Nat.zero_add] at g1 n1 l1 e1
-  have hlocs : sc.locs.any (fun e => anyConflict e.2) = false := by
-    rw [e1]
-    exact no_conflict ps hnd
-  rw [hin] at hscan
-  unfold parseCaptureGroups
-  rw [hfl, hin, hscan]
-  simp only [hlocs, Bool.false_eq_true, if_false, g1, n1]
 
 end Regress.RoundTrip
